@@ -18,7 +18,7 @@ SPEC = {
     "race": True,
     "theorems": ["C06_cache_coherent", "C06_transparent", "C06_stored_is_last_written", "C06_failure_atomic",
                  "C06_store_transparent", "C06_store_failure_atomic", "C06_store_iterate_stops_at_first_decode_error",
-                 "C06_store_set_get", "C06_store_stored_is_last_written", "C06_stored_is_last_written_aliasing", "C06_fault_reported", "C06_old_compute_witness",
+                 "C06_store_set_get", "C06_store_stored_is_last_written", "C06_stored_is_last_written_aliasing", "C06_store_iterate_keys", "C06_store_delete_prefix_clear", "C06_serialised_judge", "C06_fault_reported", "C06_old_compute_witness",
                  "C06_serialised", "C06_serialised_coherent", "C06_serialised_readers", "C06_serialised_counter",
                  "C06_skeleton_get", "C06_skeleton_has", "C06_skeleton_compute", "C06_skeleton_set", "C06_skeleton_delete",
                  "C06_skeleton_store_get", "C06_skeleton_store_has", "C06_skeleton_store_set", "C06_skeleton_store_delete",
@@ -28,7 +28,7 @@ SPEC = {
                      "Go toolchain, compiled Lean driver, Go's sync.RWMutex semantics as written in Hive/Model/TypedConc.lean"],
     "modelled": ["TypedValue Get/Has/Set/Delete/Compute over one raw key with both cache fields, per-call fault vector, call trace",
                  "reference-typed V (TypedValue[*T]): generic model at V := Ref with a heap-dependent codec (Hive/Model/TypedRef.lean); caller mutations change the heap only; cache coherence / transparency are claimed only while the caller has not mutated a cached object (aliasing assumption), last-written and failure atomicity always",
-                 "TypedStore Get/Has/Set/Delete/Iterate over a sorted association list; IterateKeys/DeletePrefix/Clear are pass-throughs and not modelled",
+                 "TypedStore Get/Has/Set/Delete/Iterate/IterateKeys/DeletePrefix/Clear over a sorted association list",
                  "protocol: RLock fast path / Lock slow path with read, store-write and cache-update micro-steps; RLock without writer preference (more schedules)",
                  "uint64 wrap-around of the counter workload after 2^64 increments is NOT modelled (Nat)",
                  "a failing store call is assumed to have no effect on the store; partial writes of the underlying store are not modelled"],
